@@ -1470,6 +1470,14 @@ class FuncExecute(ValueFunc):
         if echo:
             print(" ".join([program] + arglist))
 
+        try:
+            return self.runProgram(program, arglist, work_dir, output_file)
+        except OSError:
+            raise CklRuntimeError(
+                ValueString("ERROR"), "Cannot execute " + program, pos
+            )
+
+    def runProgram(self, program, arglist, work_dir, output_file):
         if output_file is not None:
             # TODO directly pipe output to dest file
             p = subprocess.run(
@@ -1549,7 +1557,12 @@ class FuncFileCopy(ValueFunc):
     def execute(self, args, environment, pos):
         src = args.getString("src").value
         dest = args.getString("dest").value
-        shutil.copy2(src, dest)
+        try:
+            shutil.copy2(src, dest)
+        except OSError:
+            raise CklRuntimeError(
+                ValueString("ERROR"), "Cannot copy file " + src, pos
+            )
         return NULL
 
 
@@ -1650,7 +1663,12 @@ class FuncFileMove(ValueFunc):
     def execute(self, args, environment, pos):
         src = args.getString("src").value
         dest = args.getString("dest").value
-        os.rename(src, dest)
+        try:
+            os.rename(src, dest)
+        except OSError:
+            raise CklRuntimeError(
+                ValueString("ERROR"), "Cannot move file " + src, pos
+            )
         return NULL
 
 
@@ -2452,9 +2470,16 @@ class FuncListDir(ValueFunc):
         if args.hasArg("include_dirs"):
             include_dirs = args.getBoolean("include_dirs").value
         result = ValueList()
-        self.collectFiles(
-            directory, recursive, include_path, include_dirs, result
-        )
+        try:
+            self.collectFiles(
+                directory, recursive, include_path, include_dirs, result
+            )
+        except OSError:
+            raise CklRuntimeError(
+                ValueString("ERROR"),
+                "Cannot list directory " + directory,
+                pos,
+            )
         return result
 
     def collectFiles(
